@@ -10,18 +10,12 @@ def add(id_, props, kinds, match, what):
                       'match': match, 'what': what})
 
 IMAP = ['imap', 'imap_u']
-add('KF-imap-loss', ['C01', 'C04'],
-    ['loss_not_reported_after_grace_period', 'imap_loss_reported_more_than_parts_lost'],
-    {'job_kind': IMAP, 'lane': 'sim'},
-    'imap/imap_unordered: a lost worker is never reported on an ordered imap iterator (the failure is filed under index None) and reported repeatedly on an unordered one (IMapIterator._set(None, ...), _worker_lost never cleared)')
-add('KF-imap-loss', ['C01', 'C04'], ['job_never_resolved'],
-    {'job_kind': IMAP, 'owner_died': True, 'lane': 'sim'},
-    'imap/imap_unordered: iterator never finishes after the worker running one of its parts was lost (loss not delivered to the consumer)')
-add('KF-imap-loss', ['C01', 'C08'], ['terminated_job_not_resolved'],
-    {'job_kind': IMAP, 'lane': 'sim'},
-    'imap/imap_unordered: terminate_job on a worker running an imap part is not reported to the consumer (same path as a lost worker)')
+add('KF-imap-multi-loss', ['C01', 'C04'],
+    ['loss_not_reported_after_grace_period', 'job_never_resolved'],
+    {'job_kind': IMAP, 'multi_loss': True, 'lane': 'sim'},
+    'imap/imap_unordered with several parts lost at about the same time (two or more workers running parts of one imap die before the first loss has been reported): only the first dead owner is noted; the next lost part is looked at only when some other worker exits later (same root as KF-ack-after-reap: _join_exited_workers examines jobs only in a pass that reaped somebody), so its failure is late or, on a pool where nobody exits any more, never delivered')
 add('KF-ack-after-reap', ['C01', 'C04'], ['job_never_resolved'],
-    {'ack_after_reap': True, 'reaped_later': False, 'job_kind': ['apply', 'map'], 'lane': 'sim'},
+    {'ack_after_reap': True, 'reaped_later': False, 'job_kind': ['apply', 'map', 'imap', 'imap_u'], 'lane': 'sim'},
     'worker death noticed (reaped) before its ACK was processed and no other worker exited afterwards: the job is never examined again')
 add('KF-ack-after-reap', ['C01', 'C04'],
     ['loss_not_reported_after_grace_period', 'loss_message_wrong_status_or_job'],
